@@ -54,7 +54,7 @@ class C07(ParamsProp):
     def corpus(self):
         return [dict(c) for c in CLAUSES] + super().corpus()
 
-    families = {"deep_ref_layers": 200, "wide_mapping": 15, "both_flags": 40, "many_layers": 20, "override_through_path": 40, "odd_keys": 80, "dup_in_one_mapping": 100}
+    families = {"deep_ref_layers": 200, "wide_mapping": 15, "both_flags": 40, "many_layers": 20, "override_through_path": 40, "odd_keys": 80, "dup_in_one_mapping": 100, "embedded_through_layers": 100, "wide_layer_lookup": 40}
 
     def base_cases(self, tier, seed):
         N = 1500 if tier == "quick" else 40000
@@ -64,10 +64,44 @@ class C07(ParamsProp):
             G.add_refs(r, layers, r.range(0, 5), p_cyclic=3, p_dangling=3, p_embedded=30)
             yield {"op": "params", "layers": layers}
 
+    def cases(self, tier, seed):
+        yield from super().cases(tier, seed)
+        # rendered parameters are edited in place through the public accessors (a value replaced by a reference, a
+        # mixed string, a container holding references) and rendered again: the second render must resolve the new
+        # references exactly as rendering the same data built from scratch does, and its result is closed again
+        for i in range(150 if tier == "quick" else 3000):
+            r = Rng(seed, "C07:edit", i)
+            base = {"foo": "bar", "n": 3, "app": {"port": 80, "host": "${name}.example.com", "tags": ["a", "${foo}"]}, "name": "web", "baz": "qux",
+                    "deep": {"l1": {"l2": {"v": "x"}}}}
+            layers = [base]
+            if r.chance(1, 2):
+                layers.append({"app": {"port": 81, "extra": "${n}"}})
+            path = r.choice([["baz"], ["app", "port"], ["app", "host"], ["deep", "l1", "l2", "v"], ["deep", "l1"], ["n"], ["app", "tags"]])
+            val = r.choice(["${foo}", "p-${name}-${n}", ["${foo}", "lit"], {"k": "${app:port}", "l": ["${name}"]}, "${app}", "plain", 7, None, "${deep:l1:l2:v}"])
+            c = G.P(*layers)
+            c["edit"] = {"path": path, "value": G.enc(val)}
+            c["fam"] = "edit_then_render"
+            yield c
+
     def judge(self, req, impl, reply):
         j = super().judge(req, impl, reply)
         if j.get("skip") or not isinstance(impl, dict):
             return j
+        ed = impl.get("edit")
+        if isinstance(ed, dict) and "inplace" in ed and "fresh" in ed:
+            a, b = ed["inplace"], ed["fresh"]
+            why = []
+            if "bad" in b:
+                pass
+            elif ("ok" in a) != ("ok" in b) or ("ok" in a and core.strip_flags(core.canon(a["ok"])) != core.strip_flags(core.canon(b["ok"]))):
+                why.append("rendering the rendered parameters after an in-place edit (%s := %s) gives %s, rendering the same data built from scratch gives %s"
+                           % ("/".join(req["edit"]["path"]), json.dumps(req["edit"]["value"])[:60], json.dumps(a)[:160], json.dumps(b)[:160]))
+            if "ok" in a:
+                why += ["after an in-place edit and a second render: " + w for w in find_unclosed(a["ok"])[:2]]
+            if why:
+                j["impl_oracle"] = False
+                j["concrete"] = True
+                j["why"] = (j.get("why", "") + "; " if j.get("why") else "") + "; ".join(why[:3])
         rd = impl.get("rendered") or {}
         if "ok" in rd:
             bad = find_unclosed(rd["ok"])
